@@ -313,8 +313,10 @@ def _shard_built(ctx, n: int) -> None:
 
 
 def _shard_received(ctx, n: int) -> None:
-    hyp_search(ctx, S.wellformed_ldata_frames(), oracle_received, n, seed_salt=5)
-    hyp_search(ctx, S.raw_cemi_frames(), oracle_received, n // 2, seed_salt=6)
+    valid = [bytes(x.to_knx()) for x in S.service_instances()]
+    hyp_search(ctx, S.plausible_ldata_frames(valid), oracle_received, n, seed_salt=4)
+    hyp_search(ctx, S.wellformed_ldata_frames(), oracle_received, n // 2, seed_salt=5)
+    hyp_search(ctx, S.raw_cemi_frames(), oracle_received, n // 4, seed_salt=6)
 
 
 def _shard_both(ctx, n_built: int, n_received: int) -> None:
@@ -354,7 +356,7 @@ def run(ctx) -> None:
     enumerate_lengths(ctx)
     ctx.notes["service_instances"] = len(S.service_instances())
     shards = ctx.n(8, 16)
-    parallel(ctx, _shard_both, [(ctx.n(800, 20000), ctx.n(600, 20000))] * shards)
+    parallel(ctx, _shard_both, [(ctx.n(700, 20000), ctx.n(500, 16000))] * shards)
 
 
 def replay(ctx, case) -> None:
